@@ -87,9 +87,11 @@ void tls13MakeEncryptAad(ssl_t *ssl, unsigned char aadOut[5])
 static inline
 void tls13MakeDecryptAad(ssl_t *ssl, unsigned char aadOut[5])
 {
-    aadOut[0] = SSL_RECORD_TYPE_APPLICATION_DATA;
-    aadOut[1] = 0x03;
-    aadOut[2] = 0x03;
+    /* additional_data is the record header as received (RFC 8446, 5.2):
+       a header that was altered in transit must fail authentication. */
+    aadOut[0] = ssl->rec.type;
+    aadOut[1] = ssl->rec.majVer;
+    aadOut[2] = ssl->rec.minVer;
     aadOut[3] = (ssl->rec.len & 0xff00) >> 8;
     aadOut[4] = (ssl->rec.len & 0xff);
 }
